@@ -20,7 +20,7 @@ RULE = ("cases from rng(seed, 5, 0, i): SE(2) (even i) / SE(3) (odd i) trajector
         "graph object after a vertex was fixed and another nudged), tol in 10^U(-10,-3), max_iter=50. distinct = spec fingerprint; non-trivial = initial chi2 > 100 x final chi2 or > 1e-6, "
         "with at least 2 complete iterations.")
 REQ = ["eval:chi2-not-increased", "eval:converged-within-50", "eval:newton-decrement-small", "eval:noise-free-ground-truth-recovered", "class:se2", "class:se3", "class:loops",
-       "class:landmarks", "class:noisy", "class:u_turns(relative rotation ~ pi)", "class:second_run_on_same_graph_after_edits", "class:landmarks_share_one_initial_guess_object", "class:landmark_prefixed_first_pose_fixed_by_default_argument", "class:edge_removed_between_runs"]
+       "class:landmarks", "class:noisy", "class:u_turns(relative rotation ~ pi)", "class:second_run_on_same_graph_after_edits", "class:landmarks_share_one_initial_guess_object", "class:landmark_prefixed_first_pose_fixed_by_default_argument", "class:edge_removed_between_runs", "class:information_scaled_by_1e-12..1e-6", "class:information_scaled_by_1e4..1e9"]
 PLAN = {
     "quick": {"cases": 2400, "soft_s": 90, "min_nontrivial": 500, "require": REQ},
     "thorough": {"cases": 24000, "soft_s": 1500, "min_nontrivial": 5000, "require": REQ},
@@ -169,6 +169,13 @@ def run_case(ctx, i, rng):
         spec["vertices"][j]["fixed"] = True
         spec["vertices"][0]["fixed"] = False
         ctx.count("class:landmark_prefixed_first_pose_fixed_by_default_argument")
+    if rng.random() < 0.2:
+        # all information matrices scaled by one constant (large measurement covariances / other units): chi2 is tiny or huge in absolute terms, the
+        # optimum, the iteration and the (relative) stopping rule are the same
+        cinf = float(10 ** rng.uniform(-12, -6)) if rng.random() < 0.6 else float(10 ** rng.uniform(4, 9))
+        for e in spec["edges"]:
+            e["info"] = (np.array(e["info"]) * cinf).tolist()
+        ctx.count("class:information_scaled_by_1e-12..1e-6" if cinf < 1 else "class:information_scaled_by_1e4..1e9")
     if rng.random() < 0.1:
         spec["prebind_stale"] = True  # edges arrive linked to other Vertex objects with the same ids (a ground-truth graph built first)
         ctx.count("class:edges_prebound_to_stale_vertices")
